@@ -294,7 +294,7 @@ def _contains(stmts, node):
 
 
 # ------------------------------------------------------------- closures
-def closure(ctx, func, depth=3, include_nested=True, private_only=True):
+def closure(ctx, func, depth=3, include_nested=True, private_only=True, cross_module=False):
     """`func` together with the package helpers it calls (transitively, to a
     small depth) and their nested functions: a block moved into a private
     helper is still found by the rules.  private_only: helpers whose name
@@ -316,9 +316,9 @@ def closure(ctx, func, depth=3, include_nested=True, private_only=True):
         for c in calls_in(f.node, own=False):
             fs, _d = ctx.proj.resolve_call(c, f)
             for g in fs:
-                if g.module is not f.module:
+                if g.module is not f.module and not cross_module:
                     continue
-                if private_only and not (g.name.startswith("_") or (g.cls is not None and g.cls is f.cls)):
+                if private_only and g.module is f.module and not (g.name.startswith("_") or (g.cls is not None and g.cls is f.cls)):
                     continue
                 if g.name.startswith("__") and g.name.endswith("__"):
                     continue
